@@ -954,7 +954,14 @@ pub fn roundtrip<D: DKind>(ctx: &mut Ctx, w: &World<D>, roots: &[(D::F, D::M)], 
 // Workload of c15_roundtrip
 // ---------------------------------------------------------------------------------------------
 
-pub const NAMINGS: [&str; 10] = ["none", "plain", "partly", "ctrl", "spaces", "collide-ctrl", "collide-space", "partly-weird", "underscores", "gen-collide"];
+pub const NAMINGS: [&str; 11] = ["none", "plain", "partly", "ctrl", "spaces", "collide-ctrl", "collide-space", "partly-weird", "underscores", "gen-collide", "byte-sweep"];
+
+/// bytes (as chars) that the name sanitisers must tell apart: all ASCII control characters and the
+/// space (replaced), their printable / non-ASCII neighbours (kept)
+pub const SWEEP: [u32; 41] = [
+    0x00, 0x01, 0x02, 0x03, 0x04, 0x05, 0x06, 0x07, 0x08, 0x09, 0x0a, 0x0b, 0x0c, 0x0d, 0x0e, 0x0f, 0x10, 0x11, 0x12, 0x13, 0x14, 0x15,
+    0x16, 0x17, 0x18, 0x19, 0x1a, 0x1b, 0x1c, 0x1d, 0x1e, 0x1f, 0x20, 0x21, 0x5f, 0x7e, 0x7f, 0x80, 0x85, 0xa0, 0xff,
+];
 
 /// duplicate-free, per-scheme variable names (empty = unnamed)
 pub fn names_for(scheme: &str, n: u32, rng: &mut Rng) -> Vec<String> {
@@ -1000,6 +1007,11 @@ pub fn names_for(scheme: &str, n: u32, rng: &mut Rng) -> Vec<String> {
             // it only looked at the last name's underscores
             let pool = ["__x1", "", "_a"];
             (0..n).map(|i| if i < pool.len() { pool[i].to_string() } else { plain(i) }).collect()
+        }
+        "byte-sweep" => {
+            // a window of consecutive sweep bytes, one per variable (distinct after sanitising)
+            let start = rng.usize(SWEEP.len());
+            (0..n).map(|i| format!("v{i}{}w", char::from_u32(SWEEP[(start + i) % SWEEP.len()]).unwrap())).collect()
         }
         "underscores" => {
             let pool = ["_", "__", "___x1", "_x1", "\t", "\t_", "_a"];
